@@ -17,18 +17,18 @@ def main():
     if not os.path.exists(WT):
         sh('git -C /repo worktree add --detach %s HEAD' % WT)
     head = sh('git -C /repo rev-parse HEAD')[1].strip()
-    sh('git checkout -q --detach %s && git checkout -q -- . && git clean -fdq' % head, cwd=WT)
+    sh('git reset -q --hard && git clean -fdq && git checkout -q --detach %s' % head, cwd=WT)
     results = {}
     for d in ids:
         sd = os.path.join(src, d)
         meta = json.load(open(os.path.join(sd, 'meta.json')))
         prop = meta['property']
         res = {'property': prop, 'summary': meta.get('summary', '')[:200]}
-        sh('git checkout -q -- . && git clean -fdq', cwd=WT)
+        sh('git reset -q --hard && git clean -fdq', cwd=WT)
         shutil.copy(os.path.join(sd, 'seeded_demo_test.go'), os.path.join(WT, 'seeded_demo_test.go'))
         rc0, out0 = sh('go test -vet=off -count=1 -run TestSeededDemo . 2>&1 | tail -5', cwd=WT, timeout=900)
-        res['demo_passes_without'] = ('ok ' in out0 and 'FAIL' not in out0)
-        rc, out = sh('git apply --3way %s 2>&1 || git apply %s' % (os.path.join(sd, 'patch.diff'), os.path.join(sd, 'patch.diff')), cwd=WT)
+        res['demo_passes_without'] = ('FAIL' not in out0 and 'ok' in out0)
+        rc, out = sh('git apply %s 2>&1' % os.path.join(sd, 'patch.diff'), cwd=WT)
         res['applies'] = rc == 0
         if rc != 0:
             res['apply_out'] = out[-400:]
@@ -47,7 +47,7 @@ def main():
         results[d] = res
         print(d, json.dumps(res), flush=True)
         sh('rm -f %s/findings/%s-*' % (V, prop))
-    sh('git checkout -q -- . && git clean -fdq', cwd=WT)
+    sh('git reset -q --hard && git clean -fdq', cwd=WT)
     json.dump(results, open('/tmp/seedeval.json', 'w'), indent=1)
 
 main()
